@@ -345,3 +345,10 @@ package sqlite
 //@ nopanic C13
 //@ requires config != nil
 //@ site call Open assert driverName == "sqlite3" && dataSourceName == config.Path
+
+// Graceful shutdown deletes the stored data only when the operator asked for it (C06).
+//@ func (*SqliteStore).Stop
+//@ props C06
+//@ nopanic C13
+//@ requires s != nil && s.config != nil && s.db != nil && s.sq != nil && !closed(s.sq)
+//@ site call Reset assert s.config.Reset
